@@ -34,6 +34,18 @@ CHECKS = {
  "C13": dict(level=MC, engine="graphwalk+tracecheck+cases", technique="record files: MutableLineFile.tla with symbols = JSON/CSV/TSV records, graph walk + trace validation by TLC; codec: TLC enumerates the field domain (RecordCodec.tla) and judges every recorded (r, line, loaded) with the TLA+ law",
              text="Record files: the mutable-file specification is walked with JSON, CSV and TSV record classes (fields with delimiters, quotes, blanks, nested values) for the buffered and memory-mapped mutable variants, including save and reopen. Codec: TLC enumerates strings up to length 2-3 over an alphabet of delimiters, quotes, backslash, blanks, ASCII / non-ASCII letters (JSON: also line breaks) plus padded patterns with integer/float tokens; the real save/load run on every case in one process and TLC judges round-trip and single-line. The codec half is exhaustive enumeration against a TLA+-stated law (exploration in nature); the file half is model checking.",
              note="codec laws are about pure functions (weak fit for a state machine, see DESIGN 7); equality is Python ==; numbers are tokens into a table because TLC integers are 32-bit", ref="4 C13"),
+ "C10": dict(level=EX, engine="cases", technique="definitional TLA+ module (SpanSet.tla) - TLC enumerates every bounded pair of span collections x 16 relation pairs and evaluates the membership-based definitions; case replay into the real SpanSet",
+             text="Exhaustive enumeration of a bounded input domain against an independent definition evaluated by TLC: every pair of span collections (length <= 2 x <= 1/2, with repeats, over the 10 spans on points 0..3) x 16 relation pairs, all 13 operators compared, both constructor forms; plus a seeded pass with 6-span collections over 0..10 evaluated by TLC on demand. Exploration level: these are pure functions, the specification serves as the oracle.",
+             note="integer end points; results of constructive operators compared as 'each span once', order free; bounded domain", ref="4 C10, 7"),
+ "C16": dict(level=EX, engine="cases", technique="definitional TLA+ module (IntervalMap.tla) - TLC enumerates all dictionaries of <= 3 intervals in every insertion order with all probes; case replay",
+             text="Exhaustive enumeration: every dictionary of up to 3 distinct closed intervals (invalid, touching, nested, single-point, unsorted) over 4-5 end points, validity / len / ascending items / lookup of every probe (on ends and in gaps) computed by TLC from the definition and compared with the real ImmutIntervalMap (KeyError exactly when invalid, 'in' agrees with lookup).",
+             note="end points and probes are multiples of 0.5 given as ints or floats; bounded domain; exploration level", ref="4 C16, 7"),
+ "C17": dict(level=EX, engine="cases", technique="TLA+ predicate (SortedCombinations.tla) judges every recorded generator output; TLC enumerates vectors x intervals and evaluates the min-combination definition; case replay",
+             text="The real sorted_combinations runs on every weight vector (length <= 4/5 over 0..2/3, keys sum and max, with and without yield_key) and TLC judges each recorded output with the predicate 'every non-empty index-ordered combination exactly once, keys non-decreasing, key alongside' (several outputs are legal: order among equal keys is free); early stopping must give a prefix. The min-combination search is compared with the TLC-evaluated definition for every vector x interval, plus longer seeded vectors.",
+             note="keys sum/max stand for monotone keys; bounded domain; exploration level", ref="4 C17, 7"),
+ "C19": dict(level=EX, engine="cases", technique="definitional TLA+ module (Helpers.tla) - TLC enumerates the complete bounded domain of each helper and evaluates a definition different from the library's algorithm; case replay",
+             text="Exhaustive enumeration: all 3999 integers for both roman conversions (canonical numeral by digit tables and the inverse law), all sequences over a 3-symbol alphabet up to length 4-6 x reverse flag for arg_sort (stable permutation), all needle/haystack pairs for sub_seq/search_sub_seq, all pairs for multiset equality, all (n, batch_size) for Batcher/BatcherIter incl. lock-step tuples; plus seeded longer inputs evaluated by TLC on demand.",
+             note="pure total functions: a weak fit for a state machine, decided with the TLA+ definitions as oracle at exploration level", ref="4 C19, 7"),
 }
 PENDING = "check not built yet in this session (planned, see DESIGN.md section 4)"
 
